@@ -361,3 +361,66 @@ Theorem C14_records_equal_unconditional :
 Proof. exact (@Net_props3.C14_records_equal_unconditional). Qed.
 
 Print Assumptions C14_records_equal_unconditional.
+
+(* ---- the connection handler as a whole (package M, ConnHandler.v = lib.rs ConnHandler: Handler.v, ServerHandler.v and Streams.v
+   composed under the priority order of `poll`; run against the real ConnHandler by engine connhandler).  The client half and
+   the server half inside the whole handler behave exactly as their own models on a projection of the op list
+   (connhandler_projections), so every handler theorem above applies to the real composite; the projection is NOT the naive one
+   (…_refuted: a substream request of the server half gives the client half a second round of polls in the same op); the server
+   half makes progress in every op whatever the client half does (server_starvation); after a failed negotiation of the server's
+   stream it stays Requested for ever (the TODO of lib.rs:364, server_dial_error_stalls: an observation, §9 of DESIGN.md). *)
+From BS Require Import Bytes Types FramedWrite Handler ServerHandler Framed Framed_proofs Streams Streams_proofs Handler_proofs ServerHandler_proofs ConnHandler Proto Prefix Incoming Qp ProtoCodec Codec ConnHandler_proofs.
+From Coq Require Import ZArith Lia.
+Open Scope N_scope.
+
+Theorem connhandler_projections :
+  forall (encode : message -> bytes) (block_size : blk -> N) (msg : Type)
+    (parse : bytes -> N -> parse_result msg) (proc : msg -> pm_result) (c : conn) 
+    (ops : list kop),
+  let fin := fst (krun_trace encode block_size parse proc (k_init c) ops) in
+  let outs := concat (snd (krun_trace encode block_size parse proc (k_init c) ops)) in
+  k_dead fin = false ->
+  hrun encode (h_init c) (client_proj encode block_size parse proc (k_init c) ops) =
+  (k_client fin, client_outs outs) /\
+  shrun encode block_size sh_init (flat_map shops_of ops) = (k_server fin, server_outs outs).
+Proof. exact (@ConnHandler_proofs.connhandler_projections). Qed.
+
+Theorem connhandler_projections_refuted :
+  exists (c : conn) (ops : list kop),
+    k_dead (fst (r_run c ops)) = false /\
+    client_outs (concat (snd (r_run c ops))) <> handler_outs codec_encode c (flat_map naive_hops ops).
+Proof. exact (@ConnHandler_proofs.connhandler_projections_refuted). Qed.
+
+Theorem connhandler_server_starvation :
+  forall (encode : message -> bytes) (block_size : blk -> N) (msg : Type)
+    (parse : bytes -> N -> parse_result msg) (proc : msg -> pm_result) (st : kstate) 
+    (sc r : list io) (id : N) (l : list blk),
+  k_ok st ->
+  k_dead st = false ->
+  sh_pending (k_server st) = Some l ->
+  l <> [] ->
+  sh_sink (k_server st) = SvReady id [] ->
+  let res := kstep encode block_size parse proc st (KPoll sc (FlushOk :: r)) in
+  k_fatal (fst res) = false ->
+  (k_server (fst res), server_outs (snd res)) = shstep encode block_size (k_server st) (SHPoll (FlushOk :: r)) /\
+  (exists (now rest : list blk) (more : list (N * list blk)),
+     l = now ++ rest /\
+     now <> [] /\ sh_started (k_server (fst res)) = sh_started (k_server st) ++ (id, now) :: more).
+Proof. exact (@ConnHandler_proofs.connhandler_server_starvation). Qed.
+
+Theorem connhandler_server_dial_error_stalls :
+  forall (encode : message -> bytes) (block_size : blk -> N) (msg : Type)
+    (parse : bytes -> N -> parse_result msg) (proc : msg -> pm_result) (ops : list kop) 
+    (st : kstate),
+  k_ok st ->
+  sh_sink (k_server st) = SvRequested ->
+  forallb (fun op : kop => negb (is_set_server op)) ops = true ->
+  k_dead (fst (krun_trace encode block_size parse proc st ops)) = false ->
+  server_outs (concat (snd (krun_trace encode block_size parse proc st ops))) = [] /\
+  sh_sink (k_server (fst (krun_trace encode block_size parse proc st ops))) = SvRequested.
+Proof. exact (@ConnHandler_proofs.connhandler_server_dial_error_stalls). Qed.
+
+Print Assumptions connhandler_projections.
+Print Assumptions connhandler_projections_refuted.
+Print Assumptions connhandler_server_starvation.
+Print Assumptions connhandler_server_dial_error_stalls.
